@@ -188,3 +188,14 @@ contract(f"{SWM}::SoftwareManager.check_port_is_open", props=["C13"],
          modifies=[],
          loops={0: {"inv": [("none_so_far", "forall(j, 0, _i, not (dict_val(self.software, j).port == port and dict_val(self.software, j).protocol == protocol"
                                             " and sw_running(dict_val(self.software, j))))")]}})
+
+# ---- the uninstall request: a name that is not installed is refused (never 'success'), and nothing changes -----------------------------------
+contract("src/primaite/simulator/network/hardware/base.py::Node._init_request_manager#uninstall_application", props=["C05", "C13"], region=("def", "_uninstall_application"),
+         types={"request": "List[Any]", "context": "Any"}, self_class="Node",
+         requires=["len(request) >= 1", "self.software_manager is not None",
+                   "implies(request[0] in self.software_manager.software, registered(self.software_manager, request[0])"
+                   " and isinstance(self.software_manager.software[request[0]], Application))",
+                   "self.software_manager.node._application_request_manager is not self.software_manager.node._service_request_manager"],
+         ensures=[("absent_application_refused", "implies(not old(request[0] in self.software_manager.software), result.status == 'failure' and unchanged())"),
+                  ("success_only_for_an_installed_application", "implies(result.status == 'success', old(request[0] in self.software_manager.software))")],
+         modifies=["heap"], allocates=True)
